@@ -51,11 +51,17 @@ class MultivariateNormal(TMultivariateNormal, Distribution):
                 cs2 = covariance_matrix.size(-2)
                 if not (ms == cs1 and ms == cs2):
                     raise ValueError(f"Wrong shapes in {self._repr_sizes(mean, covariance_matrix)}")
+            # Broadcast mean and covariance to the common batch shape (as torch's MultivariateNormal does for
+            # tensors), so that every method can rely on loc.shape[:-1] == covar.batch_shape == batch_shape.
+            batch_shape = torch.broadcast_shapes(mean.shape[:-1], covariance_matrix.shape[:-2])
+            if mean.shape[:-1] != batch_shape:
+                mean = mean.expand(*batch_shape, mean.shape[-1])
+            if covariance_matrix.shape[:-2] != batch_shape:
+                covariance_matrix = covariance_matrix.expand(*batch_shape, *covariance_matrix.shape[-2:])
             self.loc = mean
             self._covar = covariance_matrix
             self.__unbroadcasted_scale_tril = None
             self._validate_args = validate_args
-            batch_shape = torch.broadcast_shapes(self.loc.shape[:-1], covariance_matrix.shape[:-2])
 
             event_shape = self.loc.shape[-1:]
 
